@@ -338,6 +338,31 @@ def norm(schema: Schema, mi: MI, tree: Dict[str, Any]) -> Dict[str, Any]:
     return out
 
 
+def tree_diff(got, want, path="", limit=6) -> str:
+    """Short description of where two (normalised) trees differ."""
+    out = []
+
+    def go(a, b, p):
+        if len(out) >= limit:
+            return
+        if isinstance(a, dict) and isinstance(b, dict):
+            for k in sorted(set(a) | set(b), key=repr):
+                if k not in a:
+                    out.append(f"{p}/{k}: missing, want {b[k]!r:.120}")
+                elif k not in b:
+                    out.append(f"{p}/{k}: unexpected {a[k]!r:.120}")
+                else:
+                    go(a[k], b[k], f"{p}/{k}")
+        elif isinstance(a, list) and isinstance(b, list) and len(a) == len(b):
+            for i, (x, y) in enumerate(zip(a, b)):
+                go(x, y, f"{p}[{i}]")
+        elif a != b:
+            out.append(f"{p}: got {a!r:.120} want {b!r:.120}")
+
+    go(got, want, path)
+    return "; ".join(out) or "(equal)"
+
+
 def canon(obj) -> Any:
     """JSON-able encoding of a tree / normal form (bytes, non-finite floats, non-str keys)."""
     if isinstance(obj, bytes):
